@@ -138,9 +138,10 @@ def register(R):
   # ---- further additive accumulators: merge adds every statistic, the operand is not written (frame) -----------------
   def additive(cls, fields, real=()):
     R.cls(cls, {f: 'rreal' for f in fields})
-    R.add(Contract(f'{RS}::{cls}.merge', PROPS, types=dict(self=cls, other=cls), ret=cls,
+    # (what merge() returns is not part of the properties - callers ignore it - so it is not part of the contract)
+    R.add(Contract(f'{RS}::{cls}.merge', PROPS, types=dict(self=cls, other=cls), ret='obj?',
                    modifies=[f'self.{f}' for f in fields],
-                   ensures=[f'self.{f} == old(self.{f}) + other.{f}' for f in fields] + ['result is self'],
+                   ensures=[f'self.{f} == old(self.{f}) + other.{f}' for f in fields],
                    bounded='bounded_partition', note='homomorphism on the sufficient statistics'))
   additive('_R2TjurBase', ['sum_y_true', 'sum_y_pred', 'sum_neg_y_true', 'sum_neg_y_pred'])
   additive('RRegression', ['num_samples', 'sum_x', 'sum_y', 'sum_xx', 'sum_yy', 'sum_xy'])
@@ -247,9 +248,9 @@ def register(R):
   # exactly as `add` treats a NaN in the data - so that one accumulator and merged shards agree
   R.cls('MinMaxAndCount', dict(_count='rreal', _min='real', _max='real', axis='none', batch_score_fn='none'))
   R.add(Contract(
-      f'{RS}::MinMaxAndCount.merge', PROPS, types=dict(self='MinMaxAndCount', other='MinMaxAndCount'), ret='MinMaxAndCount',
+      f'{RS}::MinMaxAndCount.merge', PROPS, types=dict(self='MinMaxAndCount', other='MinMaxAndCount'), ret='obj?',
       modifies=['self._count', 'self._min', 'self._max'],
-      ensures=['self._count == old(self._count) + other._count', 'result is self',
+      ensures=['self._count == old(self._count) + other._count',
                'isnan(self._min) == (isnan(old(self._min)) or isnan(other._min))',
                'implies(not isnan(self._min), val(self._min) == min(val(old(self._min)), val(other._min)))',
                'isnan(self._max) == (isnan(old(self._max)) or isnan(other._max))',
@@ -290,9 +291,8 @@ def register(R):
                    note='the merged state keeps the count of EVERY n-gram / pattern (no pruning to the current top k)'))
 
   R.cls('Counter', dict(_counter='counter[obj]'))
-  R.add(Contract(f'{RS}::Counter.merge', PROPS, types=dict(self='Counter', other='Counter'), ret='Counter', modifies=['self._counter'],
-                 ensures=['result is self',
-                          "forall(lambda g: count_of(self._counter, g) == old(count_of(self._counter, g)) + count_of(other._counter, g), 'obj')",
+  R.add(Contract(f'{RS}::Counter.merge', PROPS, types=dict(self='Counter', other='Counter'), ret='obj?', modifies=['self._counter'],
+                 ensures=["forall(lambda g: count_of(self._counter, g) == old(count_of(self._counter, g)) + count_of(other._counter, g), 'obj')",
                           "forall(lambda g: count_of(other._counter, g) == old(count_of(other._counter, g)), 'obj')"],
                  bounded='bounded_algebra'))
 
@@ -326,13 +326,13 @@ def register(R):
   SAME = lambda c: (f'len(other._samples[{c}]) == len(old(other._samples[{c}]))'
                     f' and forall(lambda j: other._samples[{c}][j] is old(other._samples[{c}])[j], 0, len(other._samples[{c}]))')
   R.add(Contract(
-      f'{RS}::UnboundedSampler.merge', PROPS, variant='both-non-empty', types=dict(self='UnboundedSampler', other='UnboundedSampler'), ret='UnboundedSampler',
+      f'{RS}::UnboundedSampler.merge', PROPS, variant='both-non-empty', types=dict(self='UnboundedSampler', other='UnboundedSampler'), ret='obj?',
       setup=_sampler(2, 2), modifies=['self._samples'],
-      ensures=['result is self', APP(0), APP(1), SAME(0), SAME(1)], bounded='bounded_algebra'))
+      ensures=[APP(0), APP(1), SAME(0), SAME(1)], bounded='bounded_algebra'))
   R.add(Contract(
-      f'{RS}::UnboundedSampler.merge', PROPS, variant='into-a-fresh-sampler', types=dict(self='UnboundedSampler', other='UnboundedSampler'), ret='UnboundedSampler',
+      f'{RS}::UnboundedSampler.merge', PROPS, variant='into-a-fresh-sampler', types=dict(self='UnboundedSampler', other='UnboundedSampler'), ret='obj?',
       setup=_sampler(0, 2), modifies=['self._samples', 'self._multi_input'],
-      ensures=['result is self', 'len(self._samples) == 2', SAME(0), SAME(1),
+      ensures=['len(self._samples) == 2', SAME(0), SAME(1),
                'len(self._samples[0]) == len(other._samples[0]) and len(self._samples[1]) == len(other._samples[1])',
                'forall(lambda j: self._samples[0][j] is other._samples[0][j], 0, len(other._samples[0]))',
                'forall(lambda j: self._samples[1][j] is other._samples[1][j], 0, len(other._samples[1]))',
@@ -341,9 +341,9 @@ def register(R):
                'self._multi_input == other._multi_input'],
       bounded='bounded_algebra'))
   R.add(Contract(
-      f'{RS}::UnboundedSampler.merge', PROPS, variant='an-empty-sampler', types=dict(self='UnboundedSampler', other='UnboundedSampler'), ret='UnboundedSampler',
+      f'{RS}::UnboundedSampler.merge', PROPS, variant='an-empty-sampler', types=dict(self='UnboundedSampler', other='UnboundedSampler'), ret='obj?',
       setup=_sampler(2, 0), modifies=[],
-      ensures=['result is self', 'len(self._samples[0]) == len(old(self._samples[0])) and len(self._samples[1]) == len(old(self._samples[1]))'],
+      ensures=['len(self._samples[0]) == len(old(self._samples[0])) and len(self._samples[1]) == len(old(self._samples[1]))'],
       bounded='bounded_algebra', note='merging an empty sampler is a no-op (D17)'))
 
   # ValueAccumulator without a concat_fn: columns are concatenated into NEW lists (neither operand's list is written);
